@@ -10,10 +10,11 @@
 
 struct site { const char *file, *func, *fmt; uint8_t prio; };
 static const struct site SITES[] = {
+	/* names that are proper prefixes/extensions of each other and of the filter texts: exact matching is promised */
 	{ "a.c", "f1", "fmt x", LOG_INFO },
-	{ "a.c", "f2", "other", LOG_DEBUG },
+	{ "a.c", "f12", "other", LOG_DEBUG },
 	{ "b.c", "f1", "fmt y", LOG_DEBUG },
-	{ "b.c", "f3", "zzz", LOG_INFO },
+	{ "a.cc", "f3", "zzz", LOG_INFO },
 };
 #define NSITES 4
 struct spec { enum qb_log_filter_type type; const char *text; };
@@ -22,6 +23,7 @@ static const struct spec SPECS[] = {
 	{ QB_LOG_FILTER_FUNCTION, "f3,f1" }, { QB_LOG_FILTER_FORMAT, "fmt" },
 	{ QB_LOG_FILTER_FILE_REGEX, "^b" }, { QB_LOG_FILTER_FUNCTION_REGEX, "f[23]" }, { QB_LOG_FILTER_FORMAT_REGEX, "x$" },
 };
+static int seeded;
 static int nspecs;            /* 5 without regex, 8 with */
 static const uint8_t LOWS[] = { LOG_INFO, LOG_DEBUG };
 #define NT 2
@@ -59,7 +61,7 @@ static int selects(const struct rule *r, const struct site *s)
 	}
 	case QB_LOG_FILTER_FORMAT: return strstr(s->fmt, sp->text) != NULL;
 	case QB_LOG_FILTER_FILE_REGEX: return s->file[0] == 'b';                       /* "^b" */
-	case QB_LOG_FILTER_FUNCTION_REGEX: return !strcmp(s->func, "f2") || !strcmp(s->func, "f3");   /* "f[23]" */
+	case QB_LOG_FILTER_FUNCTION_REGEX: return strstr(s->func, "f2") || strstr(s->func, "f3");   /* "f[23]" */
 	case QB_LOG_FILTER_FORMAT_REGEX: return s->fmt[strlen(s->fmt) - 1] == 'x';    /* "x$" */
 	}
 	return 0;
@@ -123,6 +125,21 @@ static void run(void)
 	qb_log_ctl(QB_LOG_SYSLOG, QB_LOG_CONF_ENABLED, QB_FALSE);
 	memset(T, 0, sizeof T); ntags = 0; lineno_next = 200;
 	for (t = 0; t < NT; t++) open_target(t);
+	if (seeded) {
+		/* non-initial start states: target 0 already enabled with a catch-all filter (tags become observable at once),
+		   optionally with every call site already executed once (sites that exist before the rules change) */
+		int seed = vp_choose(3, "start state");
+		if (seed) {
+			int32_t r = qb_log_filter_ctl(T[0].id, QB_LOG_FILTER_ADD, QB_LOG_FILTER_FILE, "*", LOG_DEBUG);
+			if (r) vp_fail("seed: filter ADD failed: %d", r);
+			T[0].r[0].spec = 0; T[0].r[0].low = LOG_DEBUG; T[0].r[0].value = 0; T[0].nr = 1;
+			r = qb_log_ctl(T[0].id, QB_LOG_CONF_ENABLED, QB_TRUE);
+			if (r) vp_fail("seed: enable failed: %d", r);
+			T[0].enabled = 1;
+			vp_log("start: target 0 enabled with filter FILE '*' prio<=debug%s", seed == 2 ? ", every site logged once" : "");
+			if (seed == 2) { int si; for (si = 0; si < NSITES; si++) log_once(si, 10 + si, "seed"); }
+		}
+	}
 	for (step = 0; step < depth; step++) {
 		int n_f = NT * 2 * nspecs * 2, n_clr = NT, n_en = NT * 2, n_log = NSITES, n_close = with_close ? NT : 0;
 		int n_tag = with_tags ? (2 * 3 + 3 + 1) : 0;
@@ -244,6 +261,7 @@ static void init(void)
 	nspecs = (int)vp_param("regex_rules", 0, 1) ? 8 : 5;
 	with_tags = (int)vp_param("tags", 1, 1);
 	with_close = (int)vp_param("close_reopen", 1, 1);
+	seeded = (int)vp_param("seeded_starts", 1, 1);
 }
 
 int main(int argc, char **argv)
